@@ -72,7 +72,7 @@ def comNumpyVectorised (mask : Option (Pattern R)) (h w : Nat) (I4 : List (List 
     List (List R) × List (List R) :=
   let krm : Pattern R := rowGrid h w                      -- krm, kcm = np.meshgrid(kr, kc, indexing="ij")
   let kcm : Pattern R := colGrid h w
-  let im := match mask with                               -- intensities * dp_mask  (broadcast over the scan axes)
+  let im : List (List (Pattern R)) := match mask with    -- intensities * dp_mask  (broadcast over the scan axes)
     | some m => I4.map (fun row => row.map (fun I => mul2 I m))
     | none => I4
   let cr := im.map (fun row => row.map (fun I => sum2 (mul2 I krm)))   -- np.sum(intensities_mask * krm[None, None], axis=(-2, -1))
@@ -86,7 +86,7 @@ def comNumpyVectorised (mask : Option (Pattern R)) (h w : Nat) (I4 : List (List 
 /-- body of the loop for one scan position (as repaired: rows with `krm`, columns with `kcm`,
 the mask applied to a copy) -/
 def comLoopBody (mask : Option (Pattern R)) (krm kcm : Pattern R) (I : Pattern R) : R × R :=
-  let masked := match mask with                           -- masked_intensity = intensities[Rr, Rc] (* dp_mask)
+  let masked : Pattern R := match mask with               -- masked_intensity = intensities[Rr, Rc] (* dp_mask)
     | some m => mul2 I m
     | none => I
   let summed := sum2 masked                               -- masked_intensity.sum()
@@ -139,7 +139,7 @@ def fmod [HasFloor R] (x : R) (m : Nat) : R :=
 
 /-- pixel `(y, x)` of `I`, zero outside the `h × w` frame (`padding_mode="zeros"`) -/
 def pix (I : Pattern R) (h w : Nat) (y x : Int) : R :=
-  if 0 ≤ y ∧ y < (h : Int) ∧ 0 ≤ x ∧ x < (w : Int) then (I.getD y.toNat []).getD x.toNat Num.zero
+  if 0 ≤ y ∧ y < Int.ofNat h ∧ 0 ≤ x ∧ x < Int.ofNat w then (I.getD y.toNat []).getD x.toNat Num.zero
   else Num.zero
 
 /-- bilinear `grid_sample` of one output pixel at (un-normalised) source coordinate `(y, x)` -/
@@ -181,7 +181,7 @@ def shiftAllBatched [HasFloor R] (b : Nat) (coord : R × R) (h w : Nat) (origins
 /-- `np.roll(I, (-oy, -ox), axis=(0, 1))`: entry `[i][j] = I[(i + oy) mod h][(j + ox) mod w]` -/
 def rollNeg (h w : Nat) (oy ox : Int) (I : Pattern R) : Pattern R :=
   (List.range h).map (fun i => (List.range w).map (fun j =>
-    (I.getD (((i : Int) + oy) % (h : Int)).toNat []).getD (((j : Int) + ox) % (w : Int)).toNat Num.zero))
+    (I.getD ((Int.ofNat i + oy) % Int.ofNat h).toNat []).getD ((Int.ofNat j + ox) % Int.ofNat w).toNat Num.zero))
 
 end
 end QuantemModel.Origin
